@@ -49,6 +49,8 @@ mod reorg;
 mod rtx;
 mod updater;
 mod utxo_entry;
+#[cfg(feature = "verif")]
+pub mod verif;
 
 #[cfg(test)]
 pub(crate) mod testing;
